@@ -4,7 +4,8 @@
 (* written from the encoding's own rules.  The document is the sequence of *)
 (* its elements in document order:                                         *)
 (*   staffdef(n, clef, key, meter)   meter(count, unit)  (a new scoreDef)  *)
-(*   measure(n) staff(n) layer(n) ... endlayer ... endmeasure              *)
+(*   measure(n, left, right) staff(n) layer(n) ... endlayer ... endmeasure *)
+(*   ending_start(n) ... ending_end          (a bracket around measures)   *)
 (*   note / chord / rest / space (dur, dots), mrest, tuplet_start(num,     *)
 (*   numbase) ... tuplet_end, tie(startid, endid); notes carry pname,      *)
 (*   accid, oct, the grace flag and a @tie attribute (i, m, t).            *)
@@ -13,7 +14,9 @@
 (* note, a whole bar of the meter in force for mRest); the notes of a      *)
 (* chord sound together; a measure ends where its longest layer ends.      *)
 (* Ties (elements or attributes) join a note to a later note of the same   *)
-(* pitch.  One action per element kind.                                    *)
+(* pitch.  A left barline "rptstart" opens a repeat where the measure       *)
+(* starts, a right barline "rptend" closes it where the measure ends; an   *)
+(* ending spans the measures it contains.  One action per element kind.    *)
 (***************************************************************************)
 EXTENDS Rat, Sequences, FiniteSets, TLC
 
@@ -28,8 +31,11 @@ VARIABLES mpos,      \* cursor of the current layer (quarters)
           mopen,     \* open @tie attributes: <<staff, pitch, note id>>
           mmeasures, \* [n, start, end]
           mdefs,     \* staff definitions and meter changes with their position
+          mrep,      \* repeats [from, to]; to = <<-1, 1>> while open
+          mend,      \* endings [n, from, to]
+          mright,    \* right barline of the measure being read
           mbad
-mvars == <<mpos, mbar, mfar, mtup, mstaff, mlayer, meter, mnotes, mties, mopen, mmeasures, mdefs, mbad>>
+mvars == <<mpos, mbar, mfar, mtup, mstaff, mlayer, meter, mnotes, mties, mopen, mmeasures, mdefs, mrep, mend, mright, mbad>>
 
 MZero == <<0, 1>>
 RECURSIVE P2(_)
@@ -37,26 +43,38 @@ P2(k) == IF k = 0 THEN 1 ELSE 2 * P2(k - 1)
 MDur(dur, dots) == RMul(RMul(R(4, dur), R(2 * P2(dots) - 1, P2(dots))), R(mtup[2], mtup[1]))
 MMax(a, b) == IF RLess(a, b) THEN b ELSE a
 MInit == /\ mpos = MZero /\ mbar = MZero /\ mfar = MZero /\ mtup = <<1, 1>> /\ mstaff = 0 /\ mlayer = 0 /\ meter = <<4, 4>>
-         /\ mnotes = <<>> /\ mties = <<>> /\ mopen = <<>> /\ mmeasures = <<>> /\ mdefs = <<>> /\ mbad = {}
+         /\ mnotes = <<>> /\ mties = <<>> /\ mopen = <<>> /\ mmeasures = <<>> /\ mdefs = <<>> /\ mrep = <<>> /\ mend = <<>> /\ mright = "" /\ mbad = {}
 
 StaffDef(e) == /\ mdefs' = Append(mdefs, [kind |-> "staffdef", n |-> e.n, at |-> mfar, shape |-> e.s, line |-> e.a, sig |-> e.b, count |-> e.c, unit |-> e.d])
                /\ meter' = <<e.c, e.d>>
-               /\ UNCHANGED <<mpos, mbar, mfar, mtup, mstaff, mlayer, mnotes, mties, mopen, mmeasures, mbad>>
+               /\ UNCHANGED <<mpos, mbar, mfar, mtup, mstaff, mlayer, mnotes, mties, mopen, mmeasures, mbad, mrep, mend, mright>>
 Meter(e) == /\ mdefs' = Append(mdefs, [kind |-> "meter", n |-> 0, at |-> mfar, shape |-> "", line |-> 0, sig |-> 0, count |-> e.c, unit |-> e.d])
             /\ meter' = <<e.c, e.d>>
-            /\ UNCHANGED <<mpos, mbar, mfar, mtup, mstaff, mlayer, mnotes, mties, mopen, mmeasures, mbad>>
+            /\ UNCHANGED <<mpos, mbar, mfar, mtup, mstaff, mlayer, mnotes, mties, mopen, mmeasures, mbad, mrep, mend, mright>>
+Open == <<-1, 1>>
+OpenRep == IF \E i \in 1..Len(mrep) : mrep[i].to = Open THEN (CHOOSE i \in 1..Len(mrep) : mrep[i].to = Open) ELSE 0
 Measure(e) == /\ mbar' = mfar /\ mpos' = mfar
               /\ mmeasures' = Append(mmeasures, [n |-> e.s, start |-> mfar, end |-> mfar])
-              /\ UNCHANGED <<mfar, mtup, mstaff, mlayer, meter, mnotes, mties, mopen, mdefs, mbad>>
+              /\ mright' = e.id2
+              /\ mrep' = IF e.id = "rptstart" THEN Append(mrep, [from |-> mfar, to |-> Open]) ELSE mrep
+              /\ mbad' = mbad \cup (IF e.id = "rptstart" /\ OpenRep # 0 THEN {"repeat_start_inside_a_repeat"} ELSE {})
+              /\ UNCHANGED <<mfar, mtup, mstaff, mlayer, meter, mnotes, mties, mopen, mdefs, mend>>
 EndMeasureM == /\ mmeasures' = [mmeasures EXCEPT ![Len(mmeasures)].end = mfar]
-               /\ UNCHANGED <<mpos, mbar, mfar, mtup, mstaff, mlayer, meter, mnotes, mties, mopen, mdefs, mbad>>
-Staff(e) == mstaff' = e.n /\ UNCHANGED <<mpos, mbar, mfar, mtup, mlayer, meter, mnotes, mties, mopen, mmeasures, mdefs, mbad>>
+               /\ mrep' = IF mright = "rptend"
+                          THEN (IF OpenRep # 0 THEN [mrep EXCEPT ![OpenRep].to = mfar] ELSE Append(mrep, [from |-> MZero, to |-> mfar]))
+                          ELSE mrep
+               /\ UNCHANGED <<mpos, mbar, mfar, mtup, mstaff, mlayer, meter, mnotes, mties, mopen, mdefs, mend, mright, mbad>>
+EndingStart(e) == /\ mend' = Append(mend, [n |-> e.n, from |-> mfar, to |-> Open])
+                  /\ UNCHANGED <<mpos, mbar, mfar, mtup, mstaff, mlayer, meter, mnotes, mties, mopen, mmeasures, mdefs, mrep, mright, mbad>>
+EndingEnd == /\ mend' = [mend EXCEPT ![Len(mend)].to = mfar]
+             /\ UNCHANGED <<mpos, mbar, mfar, mtup, mstaff, mlayer, meter, mnotes, mties, mopen, mmeasures, mdefs, mrep, mright, mbad>>
+Staff(e) == mstaff' = e.n /\ UNCHANGED <<mpos, mbar, mfar, mtup, mlayer, meter, mnotes, mties, mopen, mmeasures, mdefs, mbad, mrep, mend, mright>>
 Layer(e) == /\ mlayer' = e.n /\ mpos' = mbar /\ mtup' = <<1, 1>>
-            /\ UNCHANGED <<mbar, mfar, mstaff, meter, mnotes, mties, mopen, mmeasures, mdefs, mbad>>
+            /\ UNCHANGED <<mbar, mfar, mstaff, meter, mnotes, mties, mopen, mmeasures, mdefs, mbad, mrep, mend, mright>>
 EndLayer == /\ mbad' = mbad \cup (IF mtup # <<1, 1>> THEN {"tuplet_not_closed"} ELSE {})
-            /\ UNCHANGED <<mpos, mbar, mfar, mtup, mstaff, mlayer, meter, mnotes, mties, mopen, mmeasures, mdefs>>
-TupletStart(e) == mtup' = <<e.a, e.b>> /\ UNCHANGED <<mpos, mbar, mfar, mstaff, mlayer, meter, mnotes, mties, mopen, mmeasures, mdefs, mbad>>
-TupletEnd == mtup' = <<1, 1>> /\ UNCHANGED <<mpos, mbar, mfar, mstaff, mlayer, meter, mnotes, mties, mopen, mmeasures, mdefs, mbad>>
+            /\ UNCHANGED <<mpos, mbar, mfar, mtup, mstaff, mlayer, meter, mnotes, mties, mopen, mmeasures, mdefs, mrep, mend, mright>>
+TupletStart(e) == mtup' = <<e.a, e.b>> /\ UNCHANGED <<mpos, mbar, mfar, mstaff, mlayer, meter, mnotes, mties, mopen, mmeasures, mdefs, mbad, mrep, mend, mright>>
+TupletEnd == mtup' = <<1, 1>> /\ UNCHANGED <<mpos, mbar, mfar, mstaff, mlayer, meter, mnotes, mties, mopen, mmeasures, mdefs, mbad, mrep, mend, mright>>
 Advance(d) == /\ mpos' = RAdd(mpos, d) /\ mfar' = MMax(mfar, RAdd(mpos, d))
 (* notes of a note / chord element; @tie attributes are resolved against the open ones of the same staff and pitch *)
 Sound(e) ==
@@ -80,21 +98,21 @@ Sound(e) ==
        r == F[Len(e.notes)]
    IN /\ mnotes' = r[1] /\ mties' = r[2] /\ mopen' = r[3] /\ mbad' = r[4]
       /\ Advance(d)
-      /\ UNCHANGED <<mbar, mtup, mstaff, mlayer, meter, mmeasures, mdefs>>
+      /\ UNCHANGED <<mbar, mtup, mstaff, mlayer, meter, mmeasures, mdefs, mrep, mend, mright>>
 Silent(e, isRest) ==
    LET d == MDur(e.a, e.b) IN
    /\ mnotes' = IF isRest THEN Append(mnotes, [id |-> e.id, staff |-> mstaff, layer |-> mlayer, on |-> mpos, dur |-> d, rest |-> 1,
                                                step |-> "C", alter |-> 0, octave |-> 0, grace |-> 0]) ELSE mnotes
    /\ Advance(d)
-   /\ UNCHANGED <<mbar, mtup, mstaff, mlayer, meter, mties, mopen, mmeasures, mdefs, mbad>>
+   /\ UNCHANGED <<mbar, mtup, mstaff, mlayer, meter, mties, mopen, mmeasures, mdefs, mbad, mrep, mend, mright>>
 MRest(e) ==
    LET d == R(4 * meter[1], meter[2]) IN
    /\ mnotes' = Append(mnotes, [id |-> e.id, staff |-> mstaff, layer |-> mlayer, on |-> mpos, dur |-> d, rest |-> 1,
                                 step |-> "C", alter |-> 0, octave |-> 0, grace |-> 0])
    /\ Advance(d)
-   /\ UNCHANGED <<mbar, mtup, mstaff, mlayer, meter, mties, mopen, mmeasures, mdefs, mbad>>
+   /\ UNCHANGED <<mbar, mtup, mstaff, mlayer, meter, mties, mopen, mmeasures, mdefs, mbad, mrep, mend, mright>>
 TieEl(e) == /\ mties' = Append(mties, <<e.id, e.id2>>)
-            /\ UNCHANGED <<mpos, mbar, mfar, mtup, mstaff, mlayer, meter, mnotes, mopen, mmeasures, mdefs, mbad>>
+            /\ UNCHANGED <<mpos, mbar, mfar, mtup, mstaff, mlayer, meter, mnotes, mopen, mmeasures, mdefs, mbad, mrep, mend, mright>>
 
 (* ---- denotation ---- *)
 Idx(id) == CHOOSE i \in 1..Len(mnotes) : mnotes[i].id = id
